@@ -1,5 +1,5 @@
-(* C29/WitnessSr25519.v — the evaluated sr25519 witnesses Properties.v depends on (each is one
-   boolean evaluated once by the VM at Qed; the published vectors are in VectorsSr25519.v).
+(* C29/WitnessSr25519.v — the evaluated sr25519 witnesses Properties.v depends on (each is
+   evaluated once, by the VM at Qed; the published vectors are in VectorsSr25519.v).
    (1) sp_core unit test verify_from_old_wasm_works: key of the all-zero seed, "SUBSTRATE", a
        schnorrkel 0.1.1 signature -- accepted by Substrate's verify_deprecated, rejected by
        VerifyDeprecated as found (it used the current labels on the pre-audit transcript).
@@ -16,58 +16,48 @@ From Hash Require Import Strobe.
 From C29 Require Import ModelField ModelEd25519 ModelSr25519.
 Local Open Scope Z_scope.
 
-Definition verdict_eqb (a b : sigverdict) : bool :=
-  match a, b with VOk, VOk | VFail, VFail | VErr, VErr => true | _, _ => false end.
-Lemma verdict_eqb_eq a b : verdict_eqb a b = true -> a = b.
-Proof. destruct a, b; (reflexivity || discriminate). Qed.
-
 Definition old1_pk := be_bytes 32 0xdef12e42f3e487e9b14095aa8d5cc16a33491f1b50dadcf8811d1480f3fa8627.
 Definition old1_msg : list byte := Eval vm_compute in list_byte_of_string "SUBSTRATE".
 Definition old1_sig := be_bytes 64 0x28a854d54903e056f89581c691c1f7d2ff39f8f896c9e9c22475e60902cc2b3547199e0e91fa32902028f2ca2355e8cdd16cfe19ba5e8b658c94aa80f3b81a00.
 
-Definition w1 : bool :=
-  sr25519_verify_deprecated_ref old1_pk old1_msg old1_sig
-  && negb (sr25519_verify_ref old1_pk old1_msg old1_sig)
-  && verdict_eqb (sr25519_verify_deprecated_prefix old1_pk old1_sig old1_msg) VFail.
-Lemma w1_true : w1 = true.
+Lemma w1a : sr25519_verify_deprecated_ref old1_pk old1_msg old1_sig = true.
 Proof. vm_cast_no_check (eq_refl true). Qed.
+Lemma w1b : sr25519_verify_ref old1_pk old1_msg old1_sig = false.
+Proof. vm_cast_no_check (eq_refl false). Qed.
+Lemma w1c : sr25519_verify_deprecated_prefix old1_pk old1_sig old1_msg = VFail.
+Proof. vm_cast_no_check (eq_refl VFail). Qed.
+Lemma w1d : sr_marked old1_sig = false.
+Proof. vm_cast_no_check (eq_refl false). Qed.
 
 Definition crust_pk := be_bytes 32 0x46ebddef8cd9bb167dc30878d7113b7e168e6f0646beffd77d69d39bad76b47a.
 Definition crust_msg : list byte := Eval vm_compute in list_byte_of_string "this is a message".
 Definition crust_sig := be_bytes 64 0x4e172314444b8f820bb54c22e95076f220ed25373e5c178234aa6c211d29271244b947e3ff3418ff6b45fd1df1140c8cbff69fc58ee6dc96df70936a2bb74b82.
 Definition crust_sig_unmarked := be_bytes 64 0x4e172314444b8f820bb54c22e95076f220ed25373e5c178234aa6c211d29271244b947e3ff3418ff6b45fd1df1140c8cbff69fc58ee6dc96df70936a2bb74b02.
 
-Definition w2 : bool :=
-  negb (sr25519_verify_deprecated_ref crust_pk crust_msg crust_sig_unmarked)
-  && verdict_eqb (sr25519_verify_deprecated_prefix crust_pk crust_sig_unmarked crust_msg) VOk.
-Lemma w2_true : w2 = true.
-Proof. vm_cast_no_check (eq_refl true). Qed.
+Lemma w2a : sr25519_verify_deprecated_ref crust_pk crust_msg crust_sig_unmarked = false.
+Proof. vm_cast_no_check (eq_refl false). Qed.
+Lemma w2b : sr25519_verify_deprecated_prefix crust_pk crust_sig_unmarked crust_msg = VOk.
+Proof. vm_cast_no_check (eq_refl VOk). Qed.
 
 Definition zero_pk : list byte := zeros 32.
 Definition zero_sig : list byte := zeros 63 ++ [n2b 128].
-Definition w3 : bool :=
-  sr25519_verify_ref zero_pk crust_msg zero_sig
-  && verdict_eqb (sr25519_verify_signature_prefix zero_pk zero_sig crust_msg) VErr.
-Lemma w3_true : w3 = true.
+Lemma w3a : sr25519_verify_ref zero_pk crust_msg zero_sig = true.
 Proof. vm_cast_no_check (eq_refl true). Qed.
+Lemma w3b : sr25519_verify_signature_prefix zero_pk zero_sig crust_msg = VErr.
+Proof. vm_cast_no_check (eq_refl VErr). Qed.
 
 (* the accepting branch of the reference (and of the repaired code) is inhabited *)
-Definition w0 : bool :=
-  sr25519_verify_ref crust_pk crust_msg crust_sig
-  && verdict_eqb (sr25519_verify_signature_prefix crust_pk crust_sig crust_msg) VOk.
-Lemma w0_true : w0 = true.
+Lemma w0a : sr25519_verify_ref crust_pk crust_msg crust_sig = true.
 Proof. vm_cast_no_check (eq_refl true). Qed.
 
-Definition w4 : bool :=
-  host_sr25519_verify_v1_prefix crust_pk old1_msg crust_sig
-  && negb (sr25519_verify_deprecated_ref crust_pk old1_msg crust_sig).
-Lemma w4_true : w4 = true.
+Lemma w4a : host_sr25519_verify_v1_prefix crust_pk old1_msg crust_sig = true.
 Proof. vm_cast_no_check (eq_refl true). Qed.
+Lemma w4b : sr25519_verify_deprecated_ref crust_pk old1_msg crust_sig = false.
+Proof. vm_cast_no_check (eq_refl false). Qed.
 
 (* R = the crust key (some other group element), s = 0, marker bit: R' = identity <> R *)
 Definition forged_zero_sig : list byte := crust_pk ++ zeros 31 ++ [n2b 128].
-Definition w5 : bool :=
-  host_sr25519_verify_v2_prefix zero_pk crust_msg forged_zero_sig
-  && negb (sr25519_verify_ref zero_pk crust_msg forged_zero_sig).
-Lemma w5_true : w5 = true.
+Lemma w5a : host_sr25519_verify_v2_prefix zero_pk crust_msg forged_zero_sig = true.
 Proof. vm_cast_no_check (eq_refl true). Qed.
+Lemma w5b : sr25519_verify_ref zero_pk crust_msg forged_zero_sig = false.
+Proof. vm_cast_no_check (eq_refl false). Qed.
